@@ -1,0 +1,18 @@
+//go:build verif
+
+package fasthttp
+
+import "net"
+
+// Thin exports for the /verif correspondence harness (property C15: graceful shutdown).
+
+// VerifIdleConns returns a snapshot of s.idleConns (connection -> value of its idleConnTime), read under idleConnsMu.
+func VerifIdleConns(s *Server) map[net.Conn]int64 {
+	s.idleConnsMu.Lock()
+	defer s.idleConnsMu.Unlock()
+	m := make(map[net.Conn]int64, len(s.idleConns))
+	for c, t := range s.idleConns {
+		m[c] = t.Load()
+	}
+	return m
+}
